@@ -32,7 +32,7 @@ func Skeletons() []Skeleton {
 		}},
 		{Name: "dispute", MintOn: false, Labels: []string{
 			"Tip(cyc,1000)", "Submit(R1,cyc,std)", "Submit(R2,cyc,std200)", b1, b1, b1,
-			"Propose(Payer,R1rep,warning,full)", "Vote(Team,support)", "Vote(Tipper,support)", "Vote(R2,against)", "Vote(S1,invalid)",
+			"Propose(Payer,R1rep,warning,full)", "Vote(R2,against)", "Vote(S1,invalid)", "Vote(Team,support)", "Vote(Tipper,support)",
 			"Block(48h0m0.001s)", "Block(24h0m0.001s)", "FeeRefund(Payer)", "ClaimReward(Team)", "ClaimReward(R2)", "Unjail(R1)", b1,
 		}},
 		{Name: "dispute-partial", MintOn: false, Labels: []string{
@@ -168,5 +168,32 @@ func checkC02(rc *RunCtx) {
 			e.Deviations(w, sk, alpha, b)
 		}
 		rc.Sample(map[string]interface{}{"skeleton": s.Name, "events": s.Labels})
+	}
+}
+
+// ShowSkeletons prints the outcome of every skeleton step (vacuity inspection).
+func ShowSkeletons(names []string) {
+	for _, s := range Skeletons() {
+		if len(names) > 0 && names[0] != s.Name {
+			continue
+		}
+		w, _, sk, _ := BuildSkeleton(s)
+		println("== skeleton", s.Name)
+		rc := newRunCtx("C02", "quick")
+		rc.Deadline = time.Now().Add(time.Hour)
+		e := &Explorer{RC: rc, Scenario: s.Name}
+		cur := w
+		for _, ev := range sk {
+			n, out := e.Step(cur, ev)
+			println("  h", n.Height(), ev.Label, "->", out.Kind, out.Err)
+			cur = n
+			if out.Kind == "halt" {
+				break
+			}
+		}
+		println("  aggregates:", len(cur.Aggregates()), "disputes:", len(cur.Disputes()), "supply:", cur.Supply().String())
+		for _, d := range cur.Disputes() {
+			println("   dispute", d.DisputeId, d.DisputeStatus.String(), "open", d.Open, "pending", d.PendingExecution, "fee", d.FeeTotal.String(), "slash", d.SlashAmount.String())
+		}
 	}
 }
